@@ -14,7 +14,7 @@ PROPS = {
                      "that those callers pass the expression they were given is part of C02's statement-level units"],
         assumptions=["wf(skel(input)) is assumed of every parsed input (parser guarantee): operator tokens match their variant, operands fit",
                      "leaf formatters (calls, tables, functions, vars, if-expressions, interpolated strings, type assertions) keep their identity (class C stubs)"]),
-    "C08": dict(units=["ctx", "block", "lib"],
+    "C08": dict(units=["ctx", "block", "lib", "sort"],
         explanation="should_format_node (real text): inside an ignore region or under a `stylua: ignore` directive the decision is Skip. "
                     "format_stmt / format_last_stmt: Skip => the node is returned unchanged. format_block (real loop, inductive invariant over the "
                     "peekable iterator): for every statement whose decision (under the context folded from the ignore start/end toggles) is Skip, the "
@@ -22,7 +22,7 @@ PROPS = {
         not_decided=["the string matching that recognises the directive text inside a comment (comment.lines().map(trim) — str iterators): assumed as has_ignore()/toggled()",
                      "table fields (format_field / format_multiline_table) and require-sorting inside ignore regions: see units table / sort when present"],
         assumptions=["Block::stmts_with_semicolon / with_stmts / Peekable::next/peek behave as sequences (class A/B)"]),
-    "C09": dict(units=["ctx", "block", "lib"], bounded=[dict(kind="lib", witnesses="RANGE_SORT_WITNESSES")],
+    "C09": dict(units=["ctx", "block", "lib", "sort"], bounded=[dict(kind="lib", witnesses="RANGE_SORT_WITNESSES")],
         explanation="should_format_node (real text) returns NotInRange iff start < range.start or end > range.end for all positions and bounds. "
                     "format_stmt / format_last_stmt: NotInRange => only nested blocks may change (stmt_block::*, assumed). format_block: an out-of-range "
                     "statement keeps its semicolon token and trailing trivia (pair pushed as returned), in the same position.",
@@ -110,12 +110,13 @@ PROPS = {
         assumptions=["machine integers: indent arithmetic (nesting depth x indent_width) and Display widths are treated as non-overflowing (stated preconditions / holes); Kani bounds: indent width < 2^16, nesting < 2^24, widths < 2^32"],
         technique="Verus: panic/arithmetic/termination obligations of every function under contract; Kani complete loop-free harness for Shape arithmetic within stated bounds"),
     "C12": dict(units=["sort", "lib", "block"], bounded=[dict(kind="lib", witnesses="SORT_WITNESSES")],
-        explanation="partition_nodes_into_groups (real loop, inductive invariant, last_mut pushes): the parts concatenated in order are exactly the block's statements and no part is empty, so sorting "
-                    "can only permute inside a part; format_ast: the codemod runs iff sort_requires.enabled (otherwise the AST reaches the formatter untouched); format_block keeps the number and order of statements.",
-        not_decided=["sort_requires' own loop (per-group ignore test with the folded ignore-region context, trivia swap on the first member, sort_by_key, extend/append): closures and `continue` in a for-loop over an "
-                     "owned Vec are outside what the installed Verus accepts; decided only by the bounded witness programs (labelled bounded): groups with an ignored / out-of-range member, ignore start/end regions, "
-                     "groups separated by blank lines (incl. whitespace-only lines), comments, different kinds",
-                     "group boundaries by line adjacency: the line arithmetic (current_line - previous_line) is behind a wrapper; its usize subtraction is not checked"],
+        explanation="partition_nodes_into_groups (real loop, inductive invariant, last_mut pushes): the parts concatenated in order are exactly the block's statements, no part is empty, group members are local assignments. "
+                    "sort_requires (real text, outer loop desugared to while-let, two inner for-loops, first_mut write-throughs): the AST is returned untouched or rebuilt from statements emitted part by part in place — "
+                    "a non-require part verbatim; a group containing a statement that is ignored (directive or ignore start/end region, folded over all statements in order) or outside the range verbatim; otherwise a "
+                    "permutation of the group (same statements modulo the leading trivia of `local`) in name order. format_ast: the codemod runs iff sort_requires.enabled; format_block keeps number and order of statements.",
+        not_decided=["group boundaries by line adjacency: the line arithmetic (current_line - previous_line) is behind a wrapper; its usize subtraction is not checked",
+                     "slice::sort_by_key is assumed to be a stable sort by the name (class B wrapper); the leading-trivia swap (comments of the group's first line stay on top) is a hole: comment preservation inside a sorted group is only exercised by the bounded witnesses",
+                     "get_expression_kind (what counts as a require / GetService call): string matching, assumed"],
         assumptions=["parsed ASTs carry positions; local names are identifier tokens (parser)"]),
     "C02": dict(units=["expr", "block", "lib", "tok", "args"], bounded=[dict(kind="lib", witnesses="C02_BOUNDED")],
         explanation="expression spine: same obligations as C05 (operator tree, leaves, operators)",
@@ -176,6 +177,7 @@ SORT_WITNESSES = [
     w('local Rodux = require("Rodux")\nlocal Binder = require("Binder")\n  \t\nlocal Roact = require("Roact")\nlocal Atlas = require("Atlas")\n', oracle="contains", contains='local Binder = require("Binder")\nlocal Rodux = require("Rodux")\n\nlocal Atlas = require("Atlas")\nlocal Roact = require("Roact")\n', **SR),
     w('local b = require("b") -- cb\nlocal a = require("a") -- ca\n-- above c\nlocal d = require("d")\nlocal c = require("c")\nprint(a)\nlocal f = require("f")\nlocal e = game:GetService("E")\nlocal d2 = game:GetService("D")\nlocal x = 1\nreturn x\n', oracle="permutation", **SR),
     w('local b = require("b")\nlocal a = require("a")\nlocal x = b.c\nlocal y = require(x)\n', oracle="permutation"),
+    w('-- stylua: ignore start\nlocal x   =  1\nlocal b = require("b")\nlocal a = require("a")\n-- stylua: ignore end\nlocal q   = 1\nlocal d = require("d")\nlocal c = require("c")\n', oracle="contains", contains='local x   =  1\nlocal b = require("b")\nlocal a = require("a")\n-- stylua: ignore end\nlocal q = 1\nlocal c = require("c")\nlocal d = require("d")\n', **SR),
 ]
 RANGE_SORT_WITNESSES = [SORT_WITNESSES[2]]
 def cli(s): return dict(kind="cli", scenario=s)
